@@ -4633,4 +4633,23 @@ _2 = a[1]
         let ty = last_name_expr_type(&ws, file_id, "value");
         assert_eq!(ws.humanize_type(ty), "1?");
     }
+
+    #[test]
+    fn test_falsy_branch_of_any_is_not_never() {
+        let mut ws = VirtualWorkspace::new();
+        let file_id = ws.def(
+            r#"
+            ---@type any
+            local value
+
+            if not value then
+                local inside = value
+            end
+            "#,
+        );
+
+        // `any` may hold false or nil, so the `not value` branch is reachable
+        let ty = last_name_expr_type(&ws, file_id, "value");
+        assert_eq!(ws.humanize_type(ty), "any");
+    }
 }
